@@ -47,12 +47,12 @@ def main():
         if rc != 0:
             out['error'] = o[-500:]
             return finish(out, patch, demo)
-        rc0, o0 = sh('/venv/bin/python %s' % demo, cwd=wt, timeout=300)
+        rc0, o0 = sh('/venv/bin/python %s' % demo, cwd=wt, timeout=300, env={'PYTHONPATH': wt})
         out['demo_without_patch'] = rc0
         sh('git apply %s' % patch, cwd=wt)
         rci, oi = sh('/venv/bin/python -c "import EoN; print(EoN.__file__)"', cwd=wt)
         out['imports_with_patch'] = (rci == 0 and wt in oi)
-        rc1, o1 = sh('/venv/bin/python %s' % demo, cwd=wt, timeout=300)
+        rc1, o1 = sh('/venv/bin/python %s' % demo, cwd=wt, timeout=300, env={'PYTHONPATH': wt})
         out['demo_with_patch'] = rc1
         out['demo_tail_with_patch'] = o1[-400:]
         out['demo_confirmed'] = (rc0 == 0 and rc1 != 0)
